@@ -176,6 +176,7 @@ impl Deserializable for Kernel {
     fn read_from<R: ByteReader>(source: &mut R) -> Result<Self, DeserializationError> {
         let len = source.read_u16()?.into();
         let kernel = source.read_many::<Digest>(len)?;
-        Ok(Self(kernel))
+        // untrusted bytes must satisfy the same invariants as kernels built with the constructor
+        Self::new(&kernel).map_err(|err| DeserializationError::InvalidValue(format!("{err}")))
     }
 }
